@@ -304,6 +304,106 @@ def id_case(ctx, idx, res):
     res.sig = ('id-family', len(pool))
 
 
+def text_case(ctx, idx, res):
+    """source forms against character data that reaches the tree builders in several pieces: runs whose lengths sit on powers of two (the builders buffer
+    text), interrupted by entity and character references, CDATA sections and internal entities (one text node in the XPath model, several SAX / DOM
+    pieces), or by comments, processing instructions and elements (separate text nodes).  The stylesheet reports the identity of the text nodes; the
+    generator knows how many there are and how long each is, so every form is compared with that expectation and with the stream form."""
+    import xml.etree.ElementTree as ET
+    r = rng_for(ctx.seed, 'c05t', idx)
+    d = ctx.drv('plain')
+    fill = r.choice(['x', 'x', 'ab', '\u00e9', '\u20ac', ' ', 'x \n'])
+    strip = r.random() < 0.35
+
+    def run():
+        n = r.choice([0, 1, 3, 99, 100, 101, 511, 512, 513, 1023, 1024, 1025, 2048, 4095, 4096, 4097, 8191, 8192, 8193, 16384, 16385, r.randint(1, 20000)])
+        return (fill * (n // len(fill) + 1))[:n]
+    JOIN = [('&amp;', '&'), ('&lt;', '<'), ('&#10;', '\n'), ('&#x20AC;', '\u20ac'), ('&#32;', ' '), ('&e;', 'entity text'), ('&w;', '  '), ('<![CDATA[c<d]]>', 'c<d'), ('<![CDATA[ ]]>', ' '), ('<![CDATA[]]>', ''), ('&gt;', '>'), ('&#9;', '\t')]
+    SPLIT = ['<!--c-->', '<?p q?>', '<e/>', '<e>in</e>']
+    # the property leaves CDATA sections out for documents supplied as a DOM (a Xerces DOM keeps them as nodes of their own): half of the documents
+    # have none and go through every form, the others only through the forms that build the native tree
+    with_cdata = r.random() < 0.5
+    if not with_cdata:
+        JOIN = [j for j in JOIN if 'CDATA' not in j[0]]
+    elems, expect = [], []
+    for i in range(r.choice([1, 2, 3])):
+        src, nodes, cur = [], [], None          # nodes: list of text (str) or None for a non-text node
+        for j in range(r.choice([1, 2, 3, 5, 8])):
+            piece = run()
+            src.append(piece.replace('&', '&amp;').replace('<', '&lt;'))
+            cur = (cur or '') + piece
+            k = r.random()
+            if k < 0.6:
+                a, b = r.choice(JOIN)
+                src.append(a)
+                cur += b
+            elif k < 0.85:
+                src.append(r.choice(SPLIT))
+                if cur:
+                    nodes.append(cur)
+                nodes.append(None)
+                cur = None
+        if cur:
+            nodes.append(cur)
+        if strip:
+            nodes = [n for n in nodes if n is None or n.strip(' \t\n\r') != '']
+        elems.append('<t>%s</t>' % ''.join(src))
+        expect.append(nodes)
+    xml = '<?xml version="1.0"?><!DOCTYPE doc [<!ENTITY e "entity text"><!ENTITY w "  ">]><doc>%s</doc>' % ''.join(elems)
+    xsl = (gen_xslt.HEAD % '') + ('<xsl:strip-space elements="*"/>' if strip else '') + (
+        '<xsl:template match="/"><out><xsl:for-each select="/doc/t"><r n="{count(text())}" c="{count(node())}" first="{string-length(text()[1])}" last="{string-length(text()[last()])}">'
+        '<xsl:for-each select="node()"><y k="{name()}" t="{count(self::text())}" l="{string-length(self::text())}" fs="{count(following-sibling::node())}" nt="{count(following-sibling::node()[1][self::text()])}" '
+        'a="{substring(self::text(), 1, 2)}" z="{substring(self::text(), string-length(self::text()) - 1)}"/></xsl:for-each></r></xsl:for-each></out></xsl:template></xsl:stylesheet>')
+    t = d.call(cmd='tnew')['t'].decode()
+    payload = {'stylesheet': xsl, 'document': xml if len(xml) < 60000 else xml[:60000] + '...'}
+    res.sig = ('text-family', fill, strip, with_cdata)
+
+    def check_expect(out, form):
+        try:
+            root = ET.fromstring(out)
+        except Exception as ex:
+            res.viol('text|unparsable|src=%s' % form, 'output of form %s cannot be parsed: %s' % (form, ex), dict(payload, form=form))
+            return
+        rs = root.findall('r')
+        for i, nodes in enumerate(expect):
+            texts = [n for n in nodes if n is not None]
+            got = rs[i] if i < len(rs) else None
+            want = {'n': str(len(texts)), 'c': str(len(nodes)), 'first': str(len(texts[0]) if texts else 0), 'last': str(len(texts[-1]) if texts else 0)}
+            have = dict((k, got.get(k)) for k in want) if got is not None else None
+            if have != want:
+                res.viol('text|model|src=%s' % ('native' if form in ('stream', 'file', 'parsed', 'stwrap', 'builder', 'ps') else 'xerces-backed'),
+                         'source supplied as %s: element t[%d] has %s, the document has %s (text nodes of lengths %s)' % (form, i + 1, have, want, [len(x) for x in texts][:12]), dict(payload, form=form))
+                return
+            ys = got.findall('y')
+            wl = [str(len(n)) if n is not None else '0' for n in nodes]
+            if [y.get('l') for y in ys] != wl:
+                res.viol('text|model|src=%s' % ('native' if form in ('stream', 'file', 'parsed', 'stwrap', 'builder', 'ps') else 'xerces-backed'),
+                         'source supplied as %s: element t[%d] has child text lengths %s, the document has %s' % (form, i + 1, [y.get('l') for y in ys][:12], wl[:12]), dict(payload, form=form))
+                return
+        res.count('text_forms_matching_the_document')
+    try:
+        base = d.call(cmd='transform', t=t, src='stream', sty='stream', tgt='stream', xml=xml.encode('utf-8'), xsl=xsl.encode())
+        if base.get('status') != b'0':
+            res.viol('text|status|src=stream', 'the stream form fails: %r' % base.get('err', b'')[:200], payload)
+            return
+        check_expect(base.get('out', b''), 'stream')
+        for src in r.sample(['parsed', 'stwrap', 'builder'] if with_cdata else ['parsed', 'parsedx', 'xerceswrap', 'stwrap', 'builder'], 3):
+            rp = d.call(cmd='transform', t=t, src=src, sty='stream', tgt='stream', xml=xml.encode('utf-8'), xsl=xsl.encode())
+            res.count('text_forms_compared')
+            if rp.get('status') != base.get('status'):
+                res.viol('text|status|src=%s' % src, 'supplied as %s the status is %s (%r), as a stream %s' % (src, rp.get('status'), rp.get('err', b'')[:120], base.get('status')), dict(payload, form=src))
+            elif rp.get('out') != base.get('out'):
+                a, b = rp.get('out', b''), base.get('out', b'')
+                i = next((j for j in range(min(len(a), len(b))) if a[j] != b[j]), min(len(a), len(b)))
+                res.viol('text|result|src=%s' % ('xerces-backed' if src in ('parsedx', 'xerceswrap') else src),
+                         'text node identity differs between the source supplied as %s and as a stream, at byte %d: %r instead of %r' % (src, i, a[max(0, i - 80):i + 40], b[max(0, i - 80):i + 40]), dict(payload, form=src))
+                check_expect(rp.get('out', b''), src)
+            else:
+                res.count('text_equal')
+    finally:
+        d.call(cmd='tdel', t=t)
+
+
 def chunk_case(ctx, idx, res):
     """result-target forms against text and attribute runs whose lengths sit on the internal buffer sizes (100-unit text buffer of the
     source-tree target, 512-unit writer / stream buffers, 8 KB file buffer, callback chunking), incl. multi-unit characters"""
@@ -416,7 +516,8 @@ def main():
     chk.run_cases('c05', 'doctype_probe', range(8))
     chk.run_cases('c05', 'id_case', range(n // 3))
     chk.run_cases('c05', 'chunk_case', range(n // 3))
-    chk.finish(min_nontrivial=60, required_stats=('identical_bytes', 'identical_trees', 'both_fail', 'form_capi', 'form_cli', 'form_src_builder', 'form_src_xerceswrap', 'form_tgt_callback', 'form_sty_pi'))
+    chk.run_cases('c05', 'text_case', range(n // 3))
+    chk.finish(min_nontrivial=60, required_stats=('identical_bytes', 'identical_trees', 'both_fail', 'form_capi', 'form_cli', 'form_src_builder', 'form_src_xerceswrap', 'form_tgt_callback', 'form_sty_pi', 'text_forms_matching_the_document', 'text_equal'))
 
 
 if __name__ == '__main__':
